@@ -521,9 +521,8 @@ pub fn verdict_c09(h: &DecHistory, sc: &mut Scratch, st: &mut Stats, enumerated:
     let mut hr = h.clone();
     hr.repl = true;
     hr.sinks_per_call.clear();
-    if matches!(hr.sink, Sink::Str | Sink::String) {
-        hr.sink = Sink::Utf8;
-    }
+    // the &mut str and String variants are with-replacement methods too: they are driven as they
+    // are, and the twin runs decode_to_utf8_without_replacement into a buffer of the same size
     let out = sc.drv.run(&hr);
     classify_common(&hr, &out, st);
     if !out.completed {
